@@ -141,7 +141,7 @@ func genAssertion(r *rec.Rand, kind int) *openfgav1.Assertion {
 		TupleKey:    &openfgav1.AssertionTupleKey{Object: rec.Pick(r, objects), Relation: rec.Pick(r, relations), User: rec.Pick(r, users)},
 		Expectation: r.Bool(),
 	}
-	if r.Chance(2, 3) {
+	if r.Chance(9, 10) {
 		// bias towards assertions that most models accept
 		a.TupleKey = &openfgav1.AssertionTupleKey{Object: "document:" + rec.Pick(r, []string{"1", "2", "x|y"}), Relation: "viewer", User: rec.Pick(r, []string{"user:anne", "user:bob", "user:c|d"})}
 	}
@@ -153,7 +153,7 @@ func genAssertion(r *rec.Rand, kind int) *openfgav1.Assertion {
 		nct = 21
 	}
 	for i := 0; i < nct; i++ {
-		if r.Chance(2, 3) {
+		if r.Chance(5, 6) {
 			a.ContextualTuples = append(a.ContextualTuples, &openfgav1.TupleKey{Object: "document:" + rec.Pick(r, []string{"1", "2"}), Relation: "viewer", User: rec.Pick(r, []string{"user:anne", "user:bob", "user:carl"})})
 		} else {
 			a.ContextualTuples = append(a.ContextualTuples, genCtxTuple(r))
@@ -164,7 +164,7 @@ func genAssertion(r *rec.Rand, kind int) *openfgav1.Assertion {
 	}
 	switch kind {
 	case 1:
-		a.Context = &structpb.Struct{Fields: map[string]*structpb.Value{"blob": structpb.NewStringValue(strings.Repeat(rec.Pick(r, []string{"a", "b"}), r.Range(15000, 33000)))}}
+		a.Context = &structpb.Struct{Fields: map[string]*structpb.Value{"blob": structpb.NewStringValue(strings.Repeat(rec.Pick(r, []string{"a", "b"}), r.Range(31900, 32050)))}}
 	case 2:
 		a.TupleKey = nil
 	}
@@ -173,7 +173,7 @@ func genAssertion(r *rec.Rand, kind int) *openfgav1.Assertion {
 
 func genAssertions(r *rec.Rand, w *rec.Writer) []*openfgav1.Assertion {
 	var out []*openfgav1.Assertion
-	switch p := r.Intn(40); {
+	switch p := r.Intn(60); {
 	case p == 0:
 		w.Stat("gen_list_101", 1)
 		for i := 0; i < 101; i++ {
@@ -184,19 +184,31 @@ func genAssertions(r *rec.Rand, w *rec.Writer) []*openfgav1.Assertion {
 		for i := 0; i < 100; i++ {
 			out = append(out, &openfgav1.Assertion{TupleKey: &openfgav1.AssertionTupleKey{Object: "document:1", Relation: "viewer", User: "user:anne"}})
 		}
-	case p <= 4:
+	case p == 2:
+		// two assertions of about 32000 bytes each: the total straddles the 64000 byte limit
 		w.Stat("gen_list_huge", 1)
-		n := r.Range(1, 4)
-		for i := 0; i < n; i++ {
-			out = append(out, genAssertion(r, 1))
+		out = append(out, genAssertion(r, 1), genAssertion(r, 1))
+		if r.Chance(2, 3) {
+			// hit the limit exactly: total proto.Size = 64000 + delta, delta in {-1, 0, 1}
+			target := 64000 + r.Intn(3) - 1
+			for tries := 0; tries < 4; tries++ {
+				total := proto.Size(out[0]) + proto.Size(out[1])
+				if total == target {
+					break
+				}
+				cur := out[0].GetContext().GetFields()["blob"].GetStringValue()
+				n := len(cur) + target - total
+				if n < 1 {
+					break
+				}
+				out[0].Context.Fields["blob"] = structpb.NewStringValue(strings.Repeat("c", n))
+			}
+			w.Stat(fmt.Sprintf("gen_list_huge_total_minus_64000_%d", proto.Size(out[0])+proto.Size(out[1])-64000), 1)
 		}
-		if r.Bool() {
-			out = append(out, genAssertion(r, 0))
-		}
-	case p == 5:
+	case p == 3:
 		w.Stat("gen_list_nokey", 1)
 		out = append(out, genAssertion(r, 0), genAssertion(r, 2))
-	case p == 6:
+	case p == 4:
 		w.Stat("gen_list_21ctx", 1)
 		out = append(out, genAssertion(r, 3))
 	case p <= 9:
@@ -288,6 +300,7 @@ type desc struct {
 	Backend string `json:"backend"`
 	Layer   string `json:"layer"`
 	Ops     int    `json:"ops"`
+	Fixed   string `json:"fixed,omitempty"` // "pipe_witness": the history of datastore_memory_never_written_empty_refuted
 }
 
 const (
@@ -327,7 +340,7 @@ func serverScenario(w *rec.Writer, e *env, d desc) {
 	kindOf := map[[2]string]int{}
 	exists := func(s, m string) (int, bool) { k, ok := kindOf[[2]string{s, m}]; return k, ok }
 	storeChoices := func() string {
-		switch p := r.Intn(20); {
+		switch p := r.Intn(40); {
 		case p == 0:
 			return ghostStore
 		case p == 1:
@@ -336,7 +349,7 @@ func serverScenario(w *rec.Writer, e *env, d desc) {
 		return stores[r.Intn(3)]
 	}
 	modelChoices := func(s string) string {
-		switch p := r.Intn(20); {
+		switch p := r.Intn(40); {
 		case p == 0:
 			return ghostModel
 		case p == 1:
@@ -384,14 +397,25 @@ func serverScenario(w *rec.Writer, e *env, d desc) {
 		ops = append(ops, rec.L(rec.I(opAddModel), rec.S(ids.Canon(s)), rec.S(ids.Canon(m))))
 		w.Stat("op_addmodel_shared_id", 1)
 	}
-	for i := 0; i < 4; i++ {
-		addModel()
+	// most (store, shared model id) pairs exist from the start, the others appear mid-history
+	for _, s := range stores {
+		for _, m := range models {
+			if r.Chance(3, 4) {
+				k := r.Intn(3)
+				if err := e.raw.WriteAuthorizationModel(ctx, s, sh.ModelWithID(modelDSL[k], m)); err != nil {
+					panic(err)
+				}
+				kindOf[[2]string{s, m}] = k
+				ops = append(ops, rec.L(rec.I(opAddModel), rec.S(ids.Canon(s)), rec.S(ids.Canon(m))))
+				w.Stat("op_addmodel_shared_id", 1)
+			}
+		}
 	}
 	for i := 0; i < d.Ops; i++ {
 		switch p := r.Intn(20); {
-		case p < 2:
+		case p < 1:
 			addModel()
-		case p < 11:
+		case p < 10:
 			s := storeChoices()
 			m := modelChoices(s)
 			as := genAssertions(r, w)
@@ -447,6 +471,17 @@ func datastoreScenario(w *rec.Writer, e *env, d desc) {
 				return x
 			}
 		}
+	}
+	if d.Fixed == "pipe_witness" {
+		// Props/C31.v datastore_memory_never_written_empty_refuted: write ("a|b","c"), read ("a","b|c")
+		as := []*openfgav1.Assertion{{TupleKey: &openfgav1.AssertionTupleKey{Object: "document:1", Relation: "viewer", User: "user:anne"}, Expectation: true}}
+		err := e.raw.WriteAssertions(ctx, prefix+"a|b", "c", cloneAll(as))
+		ops = append(ops, rec.L(rec.I(opWrite), rec.S("a|b"), rec.S("c"), recAsrts(as, nil, nil), rec.I(sh.ErrClass(err)), rec.L()))
+		got, err := e.raw.ReadAssertions(ctx, prefix+"a", "b|c")
+		ops = append(ops, rec.L(rec.I(opRead), rec.S("a"), rec.S("b|c"), rec.L(), rec.I(sh.ErrClass(err)), recEncs(got)))
+		pipes = true
+		d.Ops = 0
+		w.Stat("fixed_pipe_witness_"+d.Backend, 1)
 	}
 	for i := 0; i < d.Ops; i++ {
 		s := pick(rawStores)
@@ -540,6 +575,8 @@ func main() {
 		return
 	}
 	r := rec.NewRand(o.Seed)
+	run(desc{Seed: o.Seed, Backend: "memory", Layer: "datastore", Fixed: "pipe_witness"})
+	run(desc{Seed: o.Seed, Backend: "sqlite", Layer: "datastore", Fixed: "pipe_witness"})
 	for i := 0; i < o.N; i++ {
 		d := desc{Seed: r.Uint64(), Ops: r.Range(20, 70)}
 		d.Backend = "memory"
